@@ -83,24 +83,92 @@ Definition opt_of (pkg : pkg_spec) (fl : ctor_flags) (fuel : nat) (sd : sdecl) :
   | COutOfFuel => COutOfFuel
   end.
 
-(* ------------------------------------------------------------------ guards *)
-(* no struct reached through embedding declares a default of its own: its generated
-   SetDefault would be promoted to *T and called by NewWith but not by T.With *)
+(* ------------------------------------------------ the method set of *T: SetDefault *)
+(* the struct has a default of its own: its generated file declares SetDefault (when it is a
+   struct of the package under generation, generated with -opt like every selected type) *)
 Definition decl_has_def (sd' : sdecl) : bool :=
   existsb (fun fd => negb (String.eqb (parse_def (fd_doc fd)) "") &&
                      existsb (fun n => negb (excluded_decl fd n)) (fd_names fd)) (sd_fields sd').
+Definition own_setdefault (sd' : sdecl) : bool := String.eqb (sd_pkg sd') "" && decl_has_def sd'.
+
+(* the embedded structs at embedding depth k that declare SetDefault, with their paths *)
+Definition setdefault_candidates (pkg : pkg_spec) (si : sinst) (k : nat) : list (path * sdecl) :=
+  flat_map (fun o => if occ_emb o then match struct_of pkg (occ_ty o) with
+                                      | Some (sd', _) => if own_setdefault sd' then [(fst o, sd')] else []
+                                      | None => [] end
+                    else []) (level pkg k si []).
+
+(* Go's method promotion (the selector rule applied to the method name SetDefault): the
+   shallowest depth that has a candidate decides; more than one there = no such method *)
+Fixpoint promoted_setdefault (pkg : pkg_spec) (si : sinst) (k fuel : nat) : option (path * sdecl) :=
+  match fuel with
+  | O => None
+  | S fuel' => match setdefault_candidates pkg si k with
+               | [] => promoted_setdefault pkg si (S k) fuel'
+               | [c] => Some c
+               | _ => None
+               end
+  end.
+
+(* which SetDefault the type assertion any(t).(defaulter) of NewWith finds on *T:
+   T's own, else the promoted one; with the path of the receiver inside T *)
+Definition setdefault_target (pkg : pkg_spec) (fuel : nat) (sd : sdecl) : option (path * sdecl) :=
+  if own_setdefault sd then Some ([], sd) else promoted_setdefault pkg (self_inst sd) 0 fuel.
+
+(* running the SetDefault of the struct sd' on the part of the value found at path pre *)
+Fixpoint set_default_at (pkg : pkg_spec) (fuel : nat) (sd' : sdecl) (pre : path) (defs : list (ident * string))
+         (v : val) : res val :=
+  match defs with
+  | [] => Ok v
+  | (f, text) :: r =>
+      match resolve pkg fuel sd' f with
+      | Some p => bind (update v (pre ++ p)%list (VDef text)) (set_default_at pkg fuel sd' pre r)
+      | None => Stuck
+      end
+  end.
+
+(* shoot.NewWith as the runtime executes it: new(T); the SetDefault found in *T's method set, if
+   any (for a promoted one: the embedded struct's own default list, assigned inside the embedded
+   value); then the options *)
+Definition new_with_real (pkg : pkg_spec) (fl : ctor_flags) (fuel : nat) (sd : sdecl) (opts : list optv) : res val :=
+  let t := VPtr (zero_struct pkg fuel (self_inst sd)) in
+  bind (match setdefault_target pkg fuel sd with
+        | None => Ok t
+        | Some (pre, sd') =>
+            match new_of pkg fl fuel sd' with
+            | COk nd' => set_default_at pkg fuel sd' pre (od_defaults (make_opt fl sd' nd')) t
+            | _ => Stuck
+            end
+        end)
+       (apply_opts pkg fuel sd opts).
+
+(* ------------------------------------------------------------------ guards *)
+(* no struct reached through embedding declares a default of its own: its generated
+   SetDefault would be promoted to *T and called by NewWith but not by T.With *)
 Definition no_promoted_setdefault (pkg : pkg_spec) (fuel : nat) (sd : sdecl) : bool :=
   forallb (fun o => if occ_emb o then match struct_of pkg (occ_ty o) with
                                       | Some (sd', _) => negb (decl_has_def sd')
                                       | None => true end
                     else true) (all_occ pkg fuel (self_inst sd)).
 
-(* option function names are distinct exported identifiers *)
+(* option function names are distinct non-empty identifiers; with -short they are bare
+   Pascal-cased field names, so they must also be distinct across the structs of the package
+   and from the type and constructor names (K_opt_short_collision) *)
+Definition opt_names_of (pkg : pkg_spec) (fuel : nat) (sd' : sdecl) : list string :=
+  map (fun p => to_pascal_case (last p "")) (filter (fun q => negb (excluded_top sd' q)) (selectable_leaves pkg fuel sd')).
 Definition opt_names_ok (short : bool) (pkg : pkg_spec) (fuel : nat) (sd : sdecl) : bool :=
-  let ns := map (fun p => to_pascal_case (last p "")) (selectable_leaves pkg fuel sd) in
-  nodup_str ns && forallb (fun n => negb (String.eqb n "")) ns.
+  let ns := opt_names_of pkg fuel sd in
+  nodup_str ns && forallb (fun n => negb (String.eqb n "")) ns &&
+  (negb short ||
+   let locals := filter (fun sd' => String.eqb (sd_pkg sd') "") pkg in
+   nodup_str (flat_map (fun sd' => sd_name sd' :: ("New" ++ sd_name sd') :: opt_names_of pkg fuel sd') locals)).
 
 Definition not_generic (sd : sdecl) : bool := match sd_tparams sd with [] => true | _ => false end.
 
+(* every field of the struct reaches the constructor's field list: an excluded field (_ prefix,
+   new:"-") gets no option function (finding K_opt_excluded_field) *)
+Definition no_excluded_own (sd : sdecl) : bool := struct_clean sd.
+
 Definition c13_guard (short : bool) (pkg : pkg_spec) (fuel : nat) (sd : sdecl) : bool :=
-  c02_guard pkg fuel sd && not_generic sd && no_promoted_setdefault pkg fuel sd && opt_names_ok short pkg fuel sd.
+  c02_guard pkg fuel sd && not_generic sd && no_promoted_setdefault pkg fuel sd && opt_names_ok short pkg fuel sd &&
+  no_excluded_own sd && String.eqb (sd_pkg sd) "".
